@@ -421,6 +421,14 @@ func (res *CheckResult) Report(o CheckOpts) int {
 			}
 			if ob.Result.Candidate != "" {
 				fmt.Fprintf(&body, "\ncandidate counterexample (model of the quantifier-free part of the hypotheses; a candidate only):\n%s\n", candidateSummary(ob.Result.Candidate))
+				if !o.NoReplay && ob.Result.Model == "" {
+					if rp, confirmed := tryReplay(o, ob); rp != "" {
+						fmt.Fprintf(&body, "\nreplay on the real code:\n%s\n", rp)
+						if confirmed {
+							suffix = ""
+						}
+					}
+				}
 			}
 		}
 		path := writeReplayFile(prop, ob.Name, body.String())
@@ -456,7 +464,8 @@ func candidateSummary(model string) string {
 	lines := strings.Split(model, "\n")
 	for i := 0; i < len(lines); i++ {
 		l := strings.TrimSpace(lines[i])
-		if strings.HasPrefix(l, "(define-fun |p$") || strings.HasPrefix(l, "(define-fun |L$") || strings.HasPrefix(l, "(define-fun |res!") {
+		l2 := strings.Replace(l, "(define-fun |", "(define-fun ", 1)
+		if strings.HasPrefix(l2, "(define-fun p$") || strings.HasPrefix(l2, "(define-fun L$") || strings.HasPrefix(l2, "(define-fun res!") {
 			v := ""
 			if i+1 < len(lines) {
 				v = strings.TrimSpace(lines[i+1])
@@ -490,6 +499,9 @@ func trimModel(m string) string {
 
 func writeReplayFile(prop, name, body string) string {
 	dir := filepath.Join(verifRoot, "replay", "out", prop)
+	if d := os.Getenv("GOVC_REPLAY_DIR"); d != "" {
+		dir = filepath.Join(d, prop)
+	}
 	os.MkdirAll(dir, 0o755)
 	safe := strings.Map(func(r rune) rune {
 		if r >= 'a' && r <= 'z' || r >= 'A' && r <= 'Z' || r >= '0' && r <= '9' || r == '_' || r == '-' || r == '.' {
